@@ -172,7 +172,8 @@ def run_tlc(workdir, module, cfg, *, workers=NCPU, env=None, timeout=3600, line_
     """Run TLC on workdir/module.tla with workdir/cfg. Returns a dict with generated /
     distinct state counts, error lines, coverage {action: (distinct, generated)}."""
     meta = tempfile.mkdtemp(prefix="meta-", dir=workdir)
-    cmd = ["java", "-XX:+UseParallelGC", f"-Xmx{xmx}", "-Xss64m"]
+    # (TLC extracts the standard modules into java.io.tmpdir: keep that inside the run's own directory so nothing is left in /tmp)
+    cmd = ["java", "-XX:+UseParallelGC", f"-Xmx{xmx}", "-Xss64m", f"-Djava.io.tmpdir={meta}"]
     if dfs:
         cmd.append("-Dtlc2.tool.queue.IStateQueue=StateDeque")
     if workers and workers < NCPU:
